@@ -236,7 +236,6 @@ pub const PAIRS: &[(&str, &str, &str)] = &[
     ("as-chain", "var x = '5'; Number(x) + 1 + ''", "var x = '5'; Number(x as unknown as string) + 1 + ''"),
     ("as-const", "var t = [1, 2]; var o = {k: 'v'}; t.length + o.k", "var t = [1, 2] as const; var o = {k: 'v'} as const; t.length + o.k"),
     ("as-precedence", "var a = 1, b = 2; (a + b) * 2 + ''", "var a = 1, b = 2; (a + b as number) * 2 + ''"),
-    ("satisfies", "var o = {a: 1}; o.a + ''", "var o = {a: 1} satisfies {a: number}; o.a + ''"),
     ("nonnull-dot", "var o = {p: {q: 3}}; o.p.q + ''", "var o: any = {p: {q: 3}}; o!.p!.q! + ''"),
     ("nonnull-index-call", "var a = [function(){ return 9; }]; a[0]() + ''", "var a: any = [function(){ return 9; }]; a![0]!() + ''"),
     ("nonnull-vs-not", "var x = 0; [!x, !!x, !x === true].join()", "var x: number | null = 0; [!x!, !!x!, !x! === true].join()"),
@@ -330,6 +329,12 @@ const POSITIONS: &[(&str, &str)] = &[
     ("interface", "interface I { m: $T; f(x: $T): $T } 'ok'"),
     ("class", "class K { f: $T = undefined as any; m(x: $T): $T { return x; } } 'ok'"),
     ("constraint", "function f<X extends $T = $T>() { return 'ok'; } f()"),
+    // explicit type arguments at call sites: the `<` must not be read as a comparison
+    ("call-targ", "function f<X>(x?: X) { return 'ok'; } f<$T>()"),
+    ("call-targ-args", "function f<X, Y>(x?: X, y?: Y) { return 'ok'; } f<$T, $T>(undefined as any, 1)"),
+    ("method-call-targ", "const o = { m<X>(x?: X) { return 'ok'; } }; o.m<$T>(undefined as any)"),
+    ("call-result-targ", "function g() { return function f<X>(x?: X) { return 'ok'; }; } g()<$T>()"),
+    ("new-targ", "class K<X> { r() { return 'ok'; } } new K<$T>().r()"),
 ];
 
 /// other static syntax: (kind, text, template with `$X`)
